@@ -3,6 +3,7 @@ package props
 import (
 	"encoding/json"
 	"fmt"
+	"strings"
 	"testing"
 
 	"pgregory.net/rapid"
@@ -393,6 +394,88 @@ func jsonView(v lang.Value) lang.Value {
 		return out
 	}
 	return v
+}
+
+// TestC04Shared: the same nested map reachable along two paths of one
+// object is a hash both times; a nil object after a real one shows nulls.
+func TestC04Shared(t *testing.T) {
+	defer silenceAs("shared")()
+	col := evid.New("C04", "shared", "")
+	rapidCheck(t, col, func(rt *rapid.T) {
+		inner := gen.HashValue(rt, "inner", gen.ValueOpts{Depth: 1, FieldSafe: true})
+		if len(inner.H) == 0 {
+			inner = lang.Hash(lang.Pair{K: lang.Str("a"), V: lang.Int(1)})
+		}
+		shared := eng.NaturalGo(inner).(map[string]interface{})
+		type twoMaps struct {
+			Billing  map[string]interface{}
+			Shipping map[string]interface{}
+			Name     string
+		}
+		var obj interface{}
+		mode := rapid.SampledFrom([]string{"map", "struct", "ptr", "nested"}).Draw(rt, "mode")
+		switch mode {
+		case "map":
+			obj = map[string]interface{}{"Billing": shared, "Shipping": shared, "Name": "n"}
+		case "struct":
+			obj = twoMaps{shared, shared, "n"}
+		case "ptr":
+			obj = &twoMaps{shared, shared, "n"}
+		default:
+			obj = map[string]interface{}{"Billing": map[string]interface{}{"x": shared}, "Shipping": map[string]interface{}{"x": shared, "y": shared}, "Name": "n"}
+		}
+		want := inner
+		script := rapid.SampledFrom([]string{"return [Billing, Shipping];", "return [Shipping, Billing];", "return [type(Billing), type(Shipping), len(Billing) == len(Shipping)];", "return string(Billing) == string(Shipping);"}).Draw(rt, "script")
+		payload := map[string]interface{}{"prop": "C04", "kind": "shared-map", "script": script, "mode": mode, "inner": inner.Describe()}
+		r, err := prepared(script, nil, rapid.Bool().Draw(rt, "noopt"))
+		if err != nil {
+			rt.Fatalf("harness: %v", err)
+		}
+		// a real object, then nil, then the real object again
+		for round, o := range []interface{}{obj, nil, obj} {
+			res := r.Execute(o)
+			if res.Panic != nil || res.Err != nil {
+				violation(rt, "C04", payload, "round %d: unexpected failure: %v %v", round, res.Panic, res.Err)
+			}
+			var exp lang.Value
+			isNil := o == nil
+			nested := func(v lang.Value) lang.Value { return v }
+			if mode == "nested" {
+				nested = func(v lang.Value) lang.Value { return lang.Null() } // placeholder, replaced below
+			}
+			b, sh := want, want
+			if mode == "nested" {
+				b = lang.Hash(lang.Pair{K: lang.Str("x"), V: want})
+				sh = lang.Hash(lang.Pair{K: lang.Str("x"), V: want}, lang.Pair{K: lang.Str("y"), V: want})
+			}
+			_ = nested
+			if isNil {
+				b, sh = lang.Null(), lang.Null()
+			}
+			switch {
+			case strings.HasPrefix(script, "return [Billing"):
+				exp = lang.Array(b, sh)
+			case strings.HasPrefix(script, "return [Shipping"):
+				exp = lang.Array(sh, b)
+			case strings.HasPrefix(script, "return [type"):
+				tn := func(v lang.Value) lang.Value { return lang.Str(strings.ToLower(v.Type())) }
+				ln := func(v lang.Value) int {
+					if v.K == lang.KHash {
+						return len(v.H)
+					}
+					return len([]rune(v.Inspect()))
+				}
+				exp = lang.Array(tn(b), tn(sh), lang.Bool(ln(b) == ln(sh)))
+			default:
+				exp = lang.Bool(b.Inspect() == sh.Inspect())
+			}
+			if !lang.DeepEqual(res.Val, exp) {
+				violation(rt, "C04", payload, "round %d (object %v): expected %s, got %s", round, map[bool]string{true: "nil", false: mode}[isNil], exp.Describe(), res.Val.Describe())
+			}
+		}
+		col.Class("mode:" + mode)
+		col.Case(fmt.Sprint(script, mode, inner.Describe()), true, func() interface{} { return payload })
+	})
 }
 
 type embeddedInner struct {
